@@ -223,7 +223,7 @@ def run_model_coq(cases, tag="x", chunk=150):
     outs = []
     for k in range(0, len(files), NCPU):
         batch = [
-            subprocess.Popen(["timeout", "600", "coqc", "-Q", COQ, "OV", fn],
+            subprocess.Popen(["bash", "-c", 'ulimit -s unlimited 2>/dev/null; exec timeout 600 coqc -Q "$0" OV "$1"', COQ, fn],
                              stdout=subprocess.PIPE, stderr=subprocess.PIPE, text=True, cwd=tmpd)
             for fn in files[k:k + NCPU]
         ]
